@@ -28,7 +28,7 @@ compare an integer with a string):
     {"t":"dt","s":"<f8"} {"t":"type","s":"mod.Class"} {"t":"enum","s":...}
     {"t":"np","s":"float64:1.0"}                numpy scalar
     {"t":"obj","s":"mod.Class"}                 stateless object (reduction ops)
-    {"t":"tu","s":"<loopy persistent key>"}     loopy translation unit
+    {"t":"tu","s":"<digest of kernel dump>"}    loopy translation unit
     {"t":"data","oid":"k","sha":..,"dshape":[..],"ddtype":..}  wrapped data:
           oid = identity of the data object (small serial number, as string),
           sha/dshape/ddtype = contents, shape and dtype (for PtKey's Canon)
@@ -159,8 +159,12 @@ class FamilyExporter:
             if isinstance(v, lp.TranslationUnit):
                 k = self._tu_keys.get(id(v))
                 if k is None:
-                    from loopy.tools import LoopyKeyBuilder
-                    k = LoopyKeyBuilder()(v)
+                    # the identity of a translation unit: digest of an order-preserving,
+                    # set-sorting dump of its kernels.  NOT a persistent-hash key: key
+                    # builders cache digests on the objects they visit, so a key taken
+                    # here could be contaminated by the key builder under test.
+                    from .proclib import kernel_text
+                    k = hashlib.sha256(kernel_text(v, {}).encode()).hexdigest()[:24]
                     self._tu_keys[id(v)] = k
                     self.keep.append(v)
                 return {"t": "tu", "s": k}
